@@ -442,6 +442,7 @@ type runInfo struct {
 	spillLimit   int   // smallest table limit in effect anywhere in this run
 	orderDefined bool  // collect order is defined: single stream, no spill, no partials
 	permuted     bool
+	multiStage   bool // partials-out stages feeding a partials-in stage
 }
 
 const sigSpillMerge = "C10/groupby/spill-merges-keys-equal-under-comparator"
@@ -481,6 +482,12 @@ func (m *gbModel) checkRun(run runInfo, out []zed.Value, base map[string]*outRow
 	}
 	_ = coarseOrder
 	result := map[string]*outRow{}
+	// Classes of keys that differ only in type, in a multi-stage run whose stages may spill: each stage can
+	// combine such keys under either representative (known finding C10-spill-merge-type), so the per-key counts
+	// can come out right by coincidence (rows moved A->B in one stage and B->A in another) while the other
+	// aggregates of those rows moved with them.  See the aggregate loop below.
+	classRows := map[string][]*outRow{}
+	classFines := map[string][]string{}
 	spillPossible := run.spillLimit < m.nFine
 	classes := make([]string, 0, len(m.fineOfCoarse))
 	for co := range m.fineOfCoarse {
@@ -502,6 +509,10 @@ func (m *gbModel) checkRun(run runInfo, out []zed.Value, base map[string]*outRow
 		if strict {
 			for _, r := range rows {
 				result[r.fine] = r
+				if spillPossible && run.multiStage && len(fines) > 1 {
+					classRows[r.fine] = rows
+					classFines[r.fine] = fines
+				}
 			}
 			continue
 		}
@@ -544,36 +555,80 @@ func (m *gbModel) checkRun(run runInfo, out []zed.Value, base map[string]*outRow
 	}
 	// aggregate values: layer 1 predictions and layer 2 against the baseline
 	for fine, r := range result {
-		idx := m.rowsOfFine[fine]
-		if run.order != nil {
-			idx = m.inRunOrder(idx, run.order)
+		f := m.checkRowAggs(run, fine, r, base, o)
+		if f == nil {
+			continue
 		}
-		for a := range m.c.Aggs {
-			f, skip2 := m.checkAgg(run, a, idx, r, o)
-			if f != nil {
-				return nil, f
+		if fines, ok := classFines[fine]; ok && m.classConserved(fines, classRows[fine]) {
+			// count-type aggregates add up over the class: values moved between keys that differ only in type
+			if !vt.IsKnown(sigSpillMerge) {
+				return nil, vt.Failf(sigSpillMerge, "%s (table limit %d, %d distinct keys): aggregates moved between keys that differ only in type %s although every key kept its row count: %s; rows of the class: %s",
+					run.name, run.spillLimit, m.nFine, m.showKeys(fines), f.Msg, showRows(classRows[fine]))
 			}
-			if base != nil && !skip2 {
-				if b := base[fine]; b != nil {
-					d := m.sameAgg(a, idx, b.aggs[a], r.aggs[a])
-					if d == dupUnion && vt.IsKnown(sigFuseDupUnion) {
-						o.Known = appendOnce(o.Known, sigFuseDupUnion)
-						d = ""
+			o.Known = appendOnce(o.Known, sigSpillMerge)
+			continue
+		}
+		return nil, f
+	}
+	return result, nil
+}
+
+// classConserved reports whether every count() aggregate, summed over the
+// output rows of a class of keys, equals the model's sum over the class.
+func (m *gbModel) classConserved(fines []string, rows []*outRow) bool {
+	for a, spec := range m.c.Aggs {
+		if spec.Func != "count" {
+			continue
+		}
+		var got, want uint64
+		for _, r := range rows {
+			v := r.aggs[a]
+			if v.Type() != zed.TypeUint64 || v.IsNull() {
+				return false
+			}
+			got += v.Uint()
+		}
+		for _, f := range fines {
+			want += uint64(len(m.consumed(a, m.rowsOfFine[f])))
+		}
+		if got != want {
+			return false
+		}
+	}
+	return true
+}
+
+// checkRowAggs applies layer 1 (and layer 2 when base is given) to the aggregates of one output row.
+func (m *gbModel) checkRowAggs(run runInfo, fine string, r *outRow, base map[string]*outRow, o *vt.Outcome) *vt.Failure {
+	idx := m.rowsOfFine[fine]
+	if run.order != nil {
+		idx = m.inRunOrder(idx, run.order)
+	}
+	for a := range m.c.Aggs {
+		f, skip2 := m.checkAgg(run, a, idx, r, o)
+		if f != nil {
+			return f
+		}
+		if base != nil && !skip2 {
+			if b := base[fine]; b != nil {
+				d := m.sameAgg(a, idx, b.aggs[a], r.aggs[a])
+				if d == dupUnion && vt.IsKnown(sigFuseDupUnion) {
+					o.Known = appendOnce(o.Known, sigFuseDupUnion)
+					d = ""
+				}
+				if d != "" {
+					spec := m.c.Aggs[a]
+					sig := fmt.Sprintf("C10/groupby/%s/differs-from-baseline/%s", spec.Func, runKind(run.name))
+					if d == dupUnion {
+						sig = sigFuseDupUnion
 					}
-					if d != "" {
-						spec := m.c.Aggs[a]
-						sig := fmt.Sprintf("C10/groupby/%s/differs-from-baseline/%s", spec.Func, runKind(run.name))
-						if d == dupUnion {
-							sig = sigFuseDupUnion
-						}
-						return nil, vt.Failf(sig, "%s: %s(%s)%s for key %s: baseline (unsorted, direct, no spill) gave %s, this run gave %s: %s",
-							run.name, spec.Func, spec.Arg, whereText(spec), m.showKeys([]string{fine}), oracle.Show(b.aggs[a]), oracle.Show(r.aggs[a]), d)
-					}
+					return vt.Failf(sig, "%s: %s(%s)%s for key %s: baseline (unsorted, direct, no spill) gave %s, this run gave %s: %s",
+						run.name, spec.Func, spec.Arg, whereText(spec), m.showKeys([]string{fine}), oracle.Show(b.aggs[a]), oracle.Show(r.aggs[a]), d)
 				}
 			}
 		}
 	}
-	return result, nil
+	return nil
 }
 
 func runKind(name string) string {
@@ -1400,7 +1455,7 @@ func runGBCase(c GBCase) *vt.Outcome {
 			o.Fail = queryFailure(name+" partials-in", err)
 			return o
 		}
-		if _, f := m.checkRun(runInfo{name: name, spillLimit: c.ShardLimit}, out, base, o); f != nil {
+		if _, f := m.checkRun(runInfo{name: name, spillLimit: c.ShardLimit, multiStage: true}, out, base, o); f != nil {
 			o.Fail = f
 			return o
 		}
